@@ -113,6 +113,18 @@ def empty_devs_file():
     return p
 
 
+class TlcEvalError(Exception):
+    pass
+
+
+def validate_trace_lenient(path, wd, **kw):
+    """validate_trace, with a recording the specification cannot even evaluate counted as rejected at its start"""
+    try:
+        return validate_trace(path, wd, **kw)
+    except TlcEvalError:
+        return (1, 0)
+
+
 def validate_trace(path, wd, timeout=600, module='BusTrace.tla', cfg='BusTrace.cfg'):
     """returns None if accepted, else (line, ops applied).  First without any known-defect deviation; only a
     trace the plain specification rejects is tried again with the deviations of the open known findings."""
@@ -134,6 +146,10 @@ def _validate_trace(path, wd, timeout, module, cfg, devs):
         return int(m.group(1)), int(m.group(2))
     if 'Model checking completed. No error has been found' in out and rc == 0:
         return None
+    if 'The error occurred when TLC was evaluating' in out or 'Attempted to ' in out:
+        # the specification could not even be evaluated on this recording (a shape of observation it does not
+        # provide for): that is a rejection of the recording, not a failure of the machinery -- located by the caller
+        raise TlcEvalError(out[-3000:])
     raise Broken('trace validation failed to run on %s:\n%s' % (path, out[-4000:]))
 
 
@@ -178,7 +194,25 @@ def _validate_chunk(build_dir, scns, path, nlines, wd, module, cfg):
         sub = path + '.sub'
         with open(sub, 'w') as f:
             f.write('\n'.join(all_lines[off:]) + '\n')
-        rej = validate_trace(sub, wd, module=module, cfg=cfg)
+        try:
+            rej = validate_trace(sub, wd, module=module, cfg=cfg)
+        except TlcEvalError:
+            # find the scenario the specification chokes on: validate the remaining ones one by one
+            rej = None
+            for k2 in range(start, len(scns)):
+                one = path + '.ev'
+                with open(one, 'w') as f:
+                    f.write('\n'.join(all_lines[sum(nlines[:k2]):sum(nlines[:k2 + 1])]) + '\n')
+                try:
+                    r1 = validate_trace(one, wd, module=module, cfg=cfg)
+                except TlcEvalError:
+                    r1 = (1, 0)
+                if r1 is not None:
+                    rej = (sum(nlines[start:k2]) + r1[0], r1[1])
+                    break
+            if rej is None:
+                r['validated'] += len(scns) - start
+                break
         if rej is None:
             r['validated'] += len(scns) - start
             break
@@ -197,7 +231,10 @@ def _validate_chunk(build_dir, scns, path, nlines, wd, module, cfg):
         lines2 = busdrv.run_scenario(build_dir, scns[k])
         with open(one, 'w') as f:
             busdrv.dump(lines2, f)
-        rej2 = validate_trace(one, wd, module=module, cfg=cfg)
+        try:
+            rej2 = validate_trace(one, wd, module=module, cfg=cfg)
+        except TlcEvalError:
+            rej2 = (1, 0)
         if rej2 is None:
             r['unconfirmed'] += 1
             # keep the trace that was rejected once, for diagnosis (timing-dependent recordings)
